@@ -28,6 +28,24 @@ TASK_TIE = ("TRANSLATED tie of the relation setters: tools/extract_task.py turns
             "by the stream; for a rejected call the interpreter's result carries the error class only (that the store is untouched is the "
             "stream's business). ")
 
+WBS_TIE = ("TRANSLATED tie of wbs.py: tools/extract_wbs.py turns WBS.tasks, __getitem__, the roots getter/setter, __floordiv__, remove with its "
+           "recursive __remove, remove_all, clone / subtree with __clone, __clone_tasks and its closure link_target into a PyLite program layered "
+           "over the program of task.py (a call into task.py runs the translated setters); *_source_tasks / _getitem / _remove / _remove_all / "
+           "_roots_set / _wbs_floordiv / _clone / _subtree (Lemmas/WbsSrc*.lean) prove that the runs are the model's wbsTasks / wbsGet / wbsRemove / "
+           "forEach wbsRemove / setChildren / floordiv / cloneWbs / cloneSel (clone: on reachable states, for member roots; the three places "
+           "where source and model go different ways - dicts keyed by id, relations read while setters run, WBS() made last - are proved "
+           "equal). Primitives with pinned source text: Task.clone(), WBS(), copying of a WBS's public attributes, the filter evaluation of "
+           "remove_all. 25 semantic edits tried, all caught. ")
+
+FACADE_TIE = ("TRANSLATED tie of the list facades: tools/extract_facade.py turns _ChildrenList.remove / insert / move / reorder / sort, "
+              "_PredecessorsList / _SuccessorsList.append / remove, Task.__floordiv__ / __lshift__ / __rshift__ and the list-level << , >> and "
+              "bulk parent assignment into 17 further functions of the task.py program; *_source_children_* / _predecessors_* / _successors_* / "
+              "_floordiv / _lshift / _rshift / _list_* (Lemmas/FacadeSrc*.lean) prove that the runs are the model's chRemove / chInsert / chMove / "
+              "chReorder / chSort / prAppend ... / step (.listLshift ...) for every state (bulk parent = None needs the reachable-state "
+              "invariant); the setter theorems lift to the extended program by a monotonicity theorem of the interpreter. Python's stable "
+              "sorted() is a primitive proved equal to the model's merge sort; a facade is the one taken from the current state (stale facades "
+              "stay with the stream). 47 semantic edits tried, all caught. ")
+
 LOOPS_TIE = ("TRANSLATED tie of the inner loops: tools/extract_schedule.py turns, on every run, _ResourceUsage.reserved/reserve/__get_key and both "
              "schedulers' __get_resource_nearest_available_date / __shift_by_resource_usage_and_calendar into PyLite terms; the *_source_* theorems "
              "prove that running the translated source on a ledger is the model's function (nearestFwd/shiftFwd/nearestBwd/shiftBwd, reserved) and "
@@ -117,7 +135,7 @@ CLAIMED = {
               "of the end clamp). The full clock clause is false on the code: C06_clock_full_fails (a leaf without work left, project start not at "
               "midnight) and C06_clock_fixed_start_fails (a user-fixed start in the past: work is booked from the clock on, as C02/C04 demand) are "
               "kernel-checked counterexamples with both clocks not later than the project start (finding KF-S6-C06, replayed on every run). The "
-              "scheduler object is also re-used after other calcs, built under another clock, and its calendars / the WBS changed in between. " + CALC_TIE + SCHED_TIE),
+              "scheduler object is also re-used after other calcs, built under another clock, and its calendars / the WBS changed in between. " + CALC_TIE + SCHED_TIE + ' ' + WBS_TIE),
         design='6 (C06)', technique='Lean 4 proof (clock-independence by simulation) + kernel-checked counterexample + differential correspondence with repeated calls'),
     'C08': dict(
         text=("PARTIAL. Proved for every input of the model: C08_noIdle_partial - with balancing on, every day from a leaf's release day (latest "
@@ -174,7 +192,7 @@ CLAIMED = {
               "attached to those same outside tasks). Field values, custom attributes, WBS-level attributes and independence under later "
               "mutations of either side are object-copy facts of Python outside the graph model: they are compared on the implementation by the "
               "correspondence stream (random reachable graphs, clone and subtree with repeated/nested roots, attributes, up to 4 later "
-              "mutations on either side), which also ties the model to wbs.py. " + GRAPH_TIE),
+              "mutations on either side), which also ties the model to wbs.py. " + GRAPH_TIE + ' ' + TASK_TIE + WBS_TIE),
         design='5 (C10), 12.5', technique='Lean 4 proof (simulation of the clone call sequence over the graph model: frame, soundness, completeness, pre-order lemmas) + differential correspondence'),
     'C16': dict(
         text=("Theorems for every reachable state (Inv) and every accepted call: the post-state equals, field by field for EVERY object of the "
@@ -186,7 +204,7 @@ CLAIMED = {
               "a stable ordered permutation, reversed on request, nothing else changes), C16_move + C16_moveOne (immediately before/after the "
               "anchor, the others keep their relative order), C16_frame_links. The closed forms themselves are what the statement says in "
               "prose; they are evaluated (driver: effectB) on the implementation's own pre/post states in the correspondence stream, together "
-              "with mustAcceptB (calls the statement lists as legal must return). " + GRAPH_TIE + ' ' + TASK_TIE),
+              "with mustAcceptB (calls the statement lists as legal must return). " + GRAPH_TIE + ' ' + TASK_TIE + ' ' + WBS_TIE + FACADE_TIE),
         design='5 (C16), 12.5', technique='Lean 4 proof (closed-form effect = model step, incl. merge-sort stability and owner propagation) + differential correspondence with an effect monitor'),
     'C19': dict(
         text=("'Text cannot add, drop or alter entries' is stated as: a plain lexical reader of the emitted source returns exactly the entries of "
@@ -226,14 +244,14 @@ CLAIMED = {
               "C05_reject_is_runtime - every rejection on a reachable state is RuntimeError (RecursionError cannot occur: fuel-sufficiency "
               "lemmas; the only other exception class comes from reorder with unknown/repeated ids); C05_clash_rejected; C05_lookup_some/none - "
               "wbs[id] returns the one member with that id and raises RuntimeError exactly when there is none; C05_tasks_members/preorder - "
-              "WBS.tasks lists every member exactly once, each directly followed by its descendants, siblings in list order. " + GRAPH_TIE + ' ' + TASK_TIE),
+              "WBS.tasks lists every member exactly once, each directly followed by its descendants, siblings in list order. " + GRAPH_TIE + ' ' + TASK_TIE + ' ' + WBS_TIE),
         design='5 (C05)', technique='Lean 4 invariant proof (joint invariant, induction over histories) + differential correspondence'),
     'C11': dict(
         text=("Theorems: C11_step/C11_run - the owner back-pointer stays truthful (inherited along the parent edge, a WBS root owns itself, "
               "a parentless ordinary task has none) under every operation and history; C11_member_iff - a task reports WBS w exactly when it "
               "is in w.tasks; C11_none_iff; C11_released - tasks left out of an accepted children/roots assignment (hence remove, remove_all, "
               "WBS.remove) report no owner with their whole subtree; C11_reattach - a released subtree whose ids do not clash is accepted by "
-              "another WBS. " + GRAPH_TIE + ' ' + TASK_TIE),
+              "another WBS. " + GRAPH_TIE + ' ' + TASK_TIE + ' ' + WBS_TIE),
         design='5 (C11)', technique='Lean 4 invariant proof + differential correspondence'),
     'C15': dict(
         text=("PARTIAL. Theorem C15_partial: on every reachable state every mutator except the three element-wise list-level operations "
@@ -241,7 +259,7 @@ CLAIMED = {
               "its core is C15_children_validated_no_inner_raise (once the children setter's up-front validation passed, none of the inner "
               "parent-setter calls can raise - needs the joint invariant and fuel sufficiency). The full statement is false on the code for the "
               "three excluded operations: C15_full_fails is a kernel-checked counterexample, replayed on the implementation on every run and "
-              "listed as known findings KF-G12a/b/c; any other violation is reported. " + GRAPH_TIE + ' ' + TASK_TIE),
+              "listed as known findings KF-G12a/b/c; any other violation is reported. " + GRAPH_TIE + ' ' + TASK_TIE + ' ' + FACADE_TIE),
         design='5 (C15)', technique='Lean 4 proof (atomicity lemma) + differential correspondence; known findings for element-wise list ops'),
     'C18': dict(
         text=("Here the model is TRANSLATED, not hand-written: tools/extract.py parses the if/elif keyword-suffix chain of "
